@@ -23,8 +23,11 @@ def wellShaped (m : Mat F) (c : Nat) : Bool := m.all (fun r => r.length == c)
 
 def dot (a b : List F) : F := (List.zipWith (· * ·) a b).foldl (· + ·) 0
 
-def transpose (m : Mat F) : Mat F :=
-  (List.range (numCols m)).map fun j => m.map fun r => r.getD j 0
+/-- the `n × rows` transpose of a matrix with `n` columns (short rows read as `0`) -/
+def transposeN (m : Mat F) (n : Nat) : Mat F :=
+  (List.range n).map fun j => m.map fun r => r.getD j 0
+
+def transpose (m : Mat F) : Mat F := transposeN m (numCols m)
 
 def mulVec (m : Mat F) (v : List F) : List F := m.map fun r => dot r v
 
@@ -56,35 +59,44 @@ structure GJ (F : Type) where
   k : Nat
   pivots : List Nat
 
+/-- the pivot step shared by `solveAugmented` and `TryInv`: swap rows `k`/`pr`, scale the new row
+`k` so that its entry in column `pc` becomes `1`, subtract the multiple `row[pc]` of it from every
+other row (rows whose entry is already zero are left untouched, as in the Go code) -/
+def pivotStep (rows : Mat F) (k pr pc : Nat) : Mat F :=
+  let rows1 := swapRows rows k pr
+  let prow := rows1.getD k []
+  let prow' := scaleRow prow (prow.getD pc 0)⁻¹
+  rows1.mapIdx fun i row =>
+    if i = k then prow'
+    else
+      let f := row.getD pc 0
+      if f = 0 then row else elimRow row prow' f
+
 /-- one column step of Gauss–Jordan, exactly the loop body of `solveAugmented` -/
 def gjCol (s : GJ F) (pc : Nat) : GJ F :=
   if s.rows.length ≤ s.k then s else
   match findPivot s.rows s.k pc with
   | none => s
-  | some pr =>
-    let rows1 := swapRows s.rows s.k pr
-    let prow := rows1.getD s.k []
-    let prow' := scaleRow prow (prow.getD pc 0)⁻¹
-    let rows2 := rows1.mapIdx fun i row =>
-      if i = s.k then prow'
-      else
-        let f := row.getD pc 0
-        if f = 0 then row else elimRow row prow' f
-    { rows := rows2, k := s.k + 1, pivots := s.pivots ++ [pc] }
+  | some pr => { rows := pivotStep s.rows s.k pr pc, k := s.k + 1, pivots := s.pivots ++ [pc] }
 
 def gaussJordan (aug : Mat F) (numVars : Nat) : GJ F :=
   (List.range numVars).foldl gjCol { rows := aug, k := 0, pivots := [] }
+
+/-- value of variable `j` read off the reduced system: the right-hand side of row `i` if `j` is the
+`i`-th pivot column, zero for a free variable -/
+def pick (s : GJ F) (numVars j : Nat) : F :=
+  match s.pivots.idxOf? j with
+  | some i => entry s.rows i numVars
+  | none => 0
+
+/-- the solution read off the reduced system -/
+def extract (s : GJ F) (numVars : Nat) : List F := (List.range numVars).map (pick s numVars)
 
 /-- `solveAugmented`: `none` = inconsistent.  The last column of `aug` is the right-hand side. -/
 def solveAugmented (aug : Mat F) (numVars : Nat) : Option (List F) :=
   let s := gaussJordan aug numVars
   if (s.rows.drop s.k).any (fun r => r.getD numVars 0 ≠ 0) then none
-  else
-    let pv := s.pivots.zipIdx   -- (pivot column, pivot row index)
-    some <| (List.range numVars).map fun j =>
-      match pv.find? (fun pr => pr.1 = j) with
-      | some (_, i) => entry s.rows i numVars
-      | none => 0
+  else some (extract s numVars)
 
 /-- `SolveRight`: solve `M x = b` (rows of `M` have `n` entries, `b` has one entry per row) -/
 def solveRight (m : Mat F) (n : Nat) (b : List F) : Option (List F) :=
@@ -92,14 +104,21 @@ def solveRight (m : Mat F) (n : Nat) (b : List F) : Option (List F) :=
 
 /-- `SolveLeft`: solve `x M = r` via the transposed system; `M` is `rows × n` -/
 def solveLeft (m : Mat F) (n : Nat) (r : List F) : Option (List F) :=
-  let mt : Mat F := (List.range n).map fun j => m.map fun row => row.getD j 0
-  solveAugmented (List.zipWith (fun row ri => row ++ [ri]) mt r) m.length
+  solveRight (transposeN m n) m.length r
 
 structure DetState (F : Type) where
   rows : Mat F
   det : F
   sign : F
   singular : Bool
+
+/-- subtract from every row below `k` the multiple of row `k` that clears its entry in column `k` -/
+def elimBelow (rows : Mat F) (k : Nat) : Mat F :=
+  let prow := rows.getD k []
+  let pv := prow.getD k 0
+  rows.mapIdx fun i row =>
+    if i ≤ k then row
+    else elimRow row prow (row.getD k 0 * pv⁻¹)
 
 /-- one step of `Determinant`'s forward elimination at diagonal position `k` -/
 def detStep (s : DetState F) (k : Nat) : DetState F :=
@@ -108,38 +127,29 @@ def detStep (s : DetState F) (k : Nat) : DetState F :=
   | none => { s with singular := true }
   | some pr =>
     let rows1 := if pr = k then s.rows else swapRows s.rows k pr
-    let sign := if pr = k then s.sign else - s.sign
-    let prow := rows1.getD k []
-    let pv := prow.getD k 0
-    let rows2 := rows1.mapIdx fun i row =>
-      if i ≤ k then row
-      else elimRow row prow (row.getD k 0 * pv⁻¹)
-    { rows := rows2, det := s.det * pv, sign := sign, singular := false }
+    { rows := elimBelow rows1 k, det := s.det * entry rows1 k k,
+      sign := if pr = k then s.sign else - s.sign, singular := false }
 
 def det (m : Mat F) : F :=
   let s := (List.range m.length).foldl detStep { rows := m, det := 1, sign := 1, singular := false }
   if s.singular then 0 else s.det * s.sign
 
-/-- `TryInv`: Gauss–Jordan on `[A | I]`; `none` = singular -/
-def inverse (m : Mat F) : Option (Mat F) :=
-  let n := m.length
-  let aug : Mat F := List.zipWith (· ++ ·) m (identity n)
-  let step (acc : Option (Mat F)) (k : Nat) : Option (Mat F) :=
-    match acc with
+/-- one step of `TryInv` at diagonal position `k` (`none` = no pivot in column `k`: singular) -/
+def invStep (acc : Option (Mat F)) (k : Nat) : Option (Mat F) :=
+  match acc with
+  | none => none
+  | some rows =>
+    match findPivot rows k k with
     | none => none
-    | some rows =>
-      match findPivot rows k k with
-      | none => none
-      | some pr =>
-        let rows1 := swapRows rows k pr
-        let prow := rows1.getD k []
-        let prow' := scaleRow prow (prow.getD k 0)⁻¹
-        some <| rows1.mapIdx fun i row =>
-          if i = k then prow'
-          else
-            let f := row.getD k 0
-            if f = 0 then row else elimRow row prow' f
-  ((List.range n).foldl step (some aug)).map fun rows => rows.map (·.drop n)
+    | some pr => some (pivotStep rows k pr k)
+
+/-- Gauss–Jordan on `[A | I]` -/
+def inverseAug (m : Mat F) : Option (Mat F) :=
+  (List.range m.length).foldl invStep (some (List.zipWith (· ++ ·) m (identity m.length)))
+
+/-- `TryInv`: Gauss–Jordan on `[A | I]`, the right half of the result; `none` = singular -/
+def inverse (m : Mat F) : Option (Mat F) :=
+  (inverseAug m).map fun rows => rows.map (·.drop m.length)
 
 section Module
 variable {G : Type} [Add G] [OfNat G 0] [HSMul F G G]
